@@ -652,11 +652,34 @@ def run_case(case, ctx):
             pre, orders, res, post, checks = runner.run(ev) if (ev or base is None) else base
             if not ev:
                 nsteps = len(res["steps"])
-            line = "exec %s %s %s" % (world_wire(pre), op_wire(case, orders), ev_wire(ev))
-            model.append(line)
             r = "crashed" if res["status"] == "crashed" else ("ok" if res["exc"] is None else "exc:" + res["exc"])
-            impl.append("|".join(["ev " + ev_wire(ev), r, ",".join(faultfs.step_str(s) for s in res["steps"]), world_render(post),
-                                  ",".join(checks[0]), ",".join(checks[1])]))
+            # A mkdir that finds its directory in place and is followed by further work is REDUNDANT (the code asks
+            # by trying instead of looking first): it is not a step of the protocol.  Such steps are dropped from the
+            # recorded trace and the event positions are shifted accordingly; an event AT such a step has no
+            # counterpart in the model and is judged by the oracle alone.  (The failing mkdir that ends a clone onto
+            # an existing destination is the last step of a failed run: it stays.)
+            def redundant(rs, rr):
+                n = len(rs["steps"])
+                own_failure = any(w in rr for w in ("DestinationExists", "FileExists", "EEXIST"))
+                return sorted(k for k in rs.get("noeffect", []) if not (k == n - 1 and own_failure))
+            base_r = "ok" if (base is None or base[2]["exc"] is None) else "exc:" + str(base[2]["exc"])
+            base_red = redundant(base[2], base_r) if base is not None else []
+            # (a step that is redundant in the fault-free run is redundant in a run that shares that prefix)
+            red = sorted(set(redundant(res, r)) | (set(res.get("noeffect", [])) & set(base_red)))
+            with_model = True
+            ev_m = ev
+            if base_red or red:
+                if len(ev) > 1 or any(e[0] in base_red for e in ev):
+                    with_model = False
+                else:
+                    ev_m = [[e[0] - sum(1 for j in base_red if j < e[0])] + list(e[1:]) for e in ev]
+            if with_model:
+                model.append("exec %s %s %s" % (world_wire(pre), op_wire(case, orders), ev_wire(ev_m)))
+                kept = [s_ for i_, s_ in enumerate(res["steps"]) if i_ not in red]
+                impl.append("|".join(["ev " + ev_wire(ev_m), r, ",".join(faultfs.step_str(s_) for s_ in kept), world_render(post),
+                                      ",".join(checks[0]), ",".join(checks[1])]))
+            else:
+                tags.append("event-at-redundant-step")
             for msg, cls in oracle(case, ev, pre, res, post, checks, base[3] if base is not None else None):
                 orc.append(msg)
                 classes.append(cls)
